@@ -154,6 +154,7 @@ class Opts:
         self.dynamic = False  # a dynamic partial name in the root
         self.known_implicit = 0.04  # `t` filter message variables etc. (implicit context.resolve lookups)
         self.comments = 0.18
+        self.leak_reader = 0.45  # read a block-bound name again after its block
         self.__dict__.update(kw)
 
 
@@ -170,6 +171,7 @@ class G:
         self._ts_quote: str | None = None
         self.partial_names: list[str] = []
         self._building: set[str] = set()
+        self._leak: str | None = None
 
     # ------------------------------------------------------------------- paths
     def _name_seg(self, name: str) -> tuple[str, Any]:
@@ -572,7 +574,16 @@ class G:
         for _ in range(n):
             if r.random() < self.o.comments:
                 out.append(self.comment(fl))
+            self._leak = None
             out += self.stmt(depth, scope, fl)
+            leak = self._leak
+            self._leak = None
+            if leak and r.random() < self.o.leak_reader:
+                # a later sibling reads, from the global namespace, a name that an earlier
+                # sibling bound only inside its block / partial
+                self.features.add("reader-after-binder")
+                ref = self.path_frag((leak, []), "reader-after-binder")
+                out.append(("T", "echo", ref, True) if fl.get("line") else ("O", ref))
         return out
 
     def comment(self, fl: dict[str, Any]) -> Any:
@@ -614,6 +625,8 @@ class G:
                     kinds += ["tablerow"]
             if self.n_partials < 4 and not fl.get("macro"):
                 kinds += ["partial"] * 3
+            if self.n_partials < 6 and not fl.get("macro") and depth <= 1:
+                kinds += ["scoped-partial"] * 3
             if not fl.get("isolated") and not fl.get("macro") and depth <= 1 and not line:
                 kinds += ["macro"]
         if loop and fl.get("can_break"):
@@ -722,6 +735,7 @@ class G:
                 out.append(("T", "else", None, False))
                 out += self.items(depth + 1, scope, fl)
             out.append(("T", "end" + k, None, False))
+            self._leak = var
             return out
         if k == "break":
             return [("T", "if", self.cond(scope, loop, 1), True), ("T", r.choice(["break", "continue"]), None, True),
@@ -736,6 +750,7 @@ class G:
                 binds += [nm, ": " if r.random() < 0.85 else " = ", P("any")]
                 sc2.append((nm, "any"))
             body = self.items(depth + 1, sc2, fl, n=r.randint(1, 3))
+            self._leak = sc2[-1][0]
             return [("T", "with", cat(*binds), True), *body, ("T", "endwith", None, False)]
         if k == "translate":
             args: list[Any] = []
@@ -817,6 +832,36 @@ class G:
             return [("T", "call", cat(*head3), True)]
         if k == "partial":
             return self.partial(depth, scope, fl)
+        if k == "scoped-partial":
+            # a partial loaded while a scope frame is pushed by the enclosing block
+            form = r.choice(["for", "for", "with", "macro"] if not (line or fl.get("isolated")) else ["for", "with"])
+            if form == "for":
+                var = self.bind_name(LOOP_VARS + ["item"], "i")
+                self.binders.add("forloop")
+                fl2 = dict(fl, loop="for", can_break=True)
+                sc2 = scope + [(var, "any")]
+                body = self.partial(depth + 1, sc2, fl2)
+                if r.random() < 0.5:
+                    body = self.items(depth + 1, sc2, fl2, n=1) + body
+                out = [("T", "for", cat(var, " in ", P(r.choice(["a", "o"]))), True), *body, ("T", "endfor", None, False)]
+                self._leak = var
+                return out
+            if form == "with":
+                nm = self.bind_name(["wa", "wb", "label"], "s")
+                sc2 = scope + [(nm, "any")]
+                body = self.partial(depth + 1, sc2, fl)
+                out = [("T", "with", cat(nm, ": ", P("any")), True), *body, ("T", "endwith", None, False)]
+                self._leak = nm
+                return out
+            name = f"mac{len(self.macros)}"
+            p = self.bind_name(["pa", "pb"], "s")
+            self.binders.update(["args", "kwargs"])
+            body = self.partial(depth + 1, [(p, "any")], {"macro": True, "isolated": True})
+            body.append(("O", self.path_frag((p, []))))
+            self.macros.append((name, [p]))
+            self._leak = p
+            return [("T", "macro", cat(name, " ", p), True), *body, ("T", "endmacro", None, False),
+                    ("T", "call", cat(name, " ", P("any")), True)]
         return []
 
     def partial(self, depth: int, scope: list, fl: dict[str, Any]) -> list[Any]:
@@ -866,6 +911,8 @@ class G:
             body.append(("X", f"<{name}>"))  # makes every source text distinct
             self.write(src, body)
             self._building.discard(name)
+        bound_here = [n for n, _t in sc2[(len(scope) if tag == "include" else 0):]]
+        self._leak = r.choice(bound_here) if bound_here else None
         return [("T", tag, cat(*head), True)]
 
     # ------------------------------------------------------------------ writing
